@@ -49,7 +49,8 @@ def rich_doc(rng, variant: int, kind: str = "single", nfig: int = 2) -> dict:
     everything a shared scratch value could carry from one thread to another:
     palette, text conversion on/off (with LaTeX-bearing text in both), borders,
     formats, justification, font sizes, column widths."""
-    pals = (["red", "gold", "navy"], ["cyan4", "tomato", "purple"])[variant % 2]
+    pals = (["red", "gold", "navy", "orchid3", "gray50"], ["cyan4", "tomato", "purple", "firebrick", "ivory4"],
+            ["blue", "green", "darkorange", "white", "gold"])[variant % 3]
     conv = bool(variant % 2 == 0)
     fmt = ("b", "i")[variant % 2]
     just = ("l", "r")[variant % 2]
@@ -64,8 +65,8 @@ def rich_doc(rng, variant: int, kind: str = "single", nfig: int = 2) -> dict:
         return {"cols": cols}
 
     def body(ncols):
-        return {"text_color": [[rng.choice(pals) for _ in range(ncols)]], "text_background_color": pals[0],
-                "border_color_top": [[pals[1]]], "text_convert": [[conv]], "text_format": [[fmt]],
+        return {"text_color": [[pals[(j + 2) % len(pals)] for j in range(ncols)]], "text_background_color": pals[0],
+                "border_color_top": [[pals[1]]], "border_color_left": [[pals[3]]], "border_color_bottom": [[pals[4]]], "text_convert": [[conv]], "text_format": [[fmt]],
                 "text_justification": [[just]], "text_font_size": [[size]], "border_top": [[bstyle]],
                 "col_rel_width": [1 + ((j + variant) % 3) for j in range(ncols)]}
 
@@ -188,6 +189,7 @@ class Sched:
         self.thread_steps = [0] * n
         self.sites_seen: set = set()
         self.collect_sites = plan.get("collect_sites", False)
+        self.finish_pref = list(plan.get("finish_pref") or [])
         self.hot_sites = set(plan.get("hot_sites") or [])
         self.list_hot = bool(plan.get("list_hot_steps"))
         self.hot_steps: list = []
@@ -259,6 +261,9 @@ class Sched:
             return None
         if self.kind == "pct":
             return max(r, key=lambda j: self.prio[j])
+        for j in self.finish_pref:  # explicit order of resumption, if the plan gives one
+            if j in r:
+                return j
         # default policy: lowest index ready thread
         return r[0]
 
@@ -903,7 +908,8 @@ def hot_job(j: dict) -> dict:
     return out
 
 
-def sweep_jobs(root: int, groups: list, refcache: RefCache, specs: list, hot_info: dict, hot_cap: int) -> list:
+def sweep_jobs(root: int, groups: list, refcache: RefCache, specs: list, hot_info: dict, hot_cap: int,
+               hot3_cap: int = 400) -> list:
     """specs: [(group index, trace mode, stride)]; hot_info: group index -> hot_job result."""
     jobs = []
     idx = 10_000_000
@@ -924,6 +930,28 @@ def sweep_jobs(root: int, groups: list, refcache: RefCache, specs: list, hot_inf
                 jobs.append({"idx": idx, "sweep": {"group": name, "order": order, "k": k, "K": K, "mode": trace_mode,
                                                    "stride": stride}, "plan": plan})
                 idx += 1
+    # targeted, three threads: A paused inside a hot function, B paused inside a hot function, C runs to
+    # completion, then both resumption orders (races that need a third party between two others)
+    third = core.rng_for(root, PROP, "sweep-third")
+    for gi, info in sorted(hot_info.items()):
+        name, a, b = groups[gi]
+        if not info.get("hot"):
+            continue
+        c = rich_doc(third, 2, "single")
+        sa = info["hot_steps"].get("0", [])
+        sb = info["hot_steps"].get("1", [])
+        m = max(1, int(hot3_cap ** 0.5))
+        pick_a = sa[:: max(1, -(-len(sa) // m))]
+        pick_b = sb[:: max(1, -(-len(sb) // m))]
+        for k1 in pick_a:
+            for j2 in pick_b:
+                for pref in ([0, 1], [1, 0]):
+                    plan = {"recipes": [a, b, c], "decider": {"kind": "sweep"}, "first": 0, "trace_mode": "hot",
+                            "hot_sites": sorted(info["hot"]), "decisions": [[k1, 1], [k1 + j2, 2]],
+                            "finish_pref": pref, "abort": None}
+                    jobs.append({"idx": idx, "sweep": {"group": name + "+third", "order": pref[0], "k": k1, "K": len(sa),
+                                                       "mode": "hot3", "stride": 0}, "plan": plan})
+                    idx += 1
     # targeted: every statement boundary inside functions seen writing shared state
     for gi, info in sorted(hot_info.items()):
         name, a, b = groups[gi]
@@ -945,10 +973,10 @@ def sweep_jobs(root: int, groups: list, refcache: RefCache, specs: list, hot_inf
 # batch
 # --------------------------------------------------------------------------
 
-TIERS = {"quick": {"runs": 1200, "wall": 420.0, "groups": 4, "hot_cap": 800,
+TIERS = {"quick": {"runs": 1200, "wall": 420.0, "groups": 4, "hot_cap": 600, "hot3_cap": 100,
                    "sweeps": [(0, "call", 16), (1, "call", 16), (2, "call", 6), (3, "call", 16),
                               (0, "line", 96)]},
-         "thorough": {"runs": 60000, "wall": 3000.0, "groups": 8, "hot_cap": 4000,
+         "thorough": {"runs": 60000, "wall": 3000.0, "groups": 8, "hot_cap": 4000, "hot3_cap": 2500,
                       "sweeps": [(i, "callret", 1) for i in range(8)] + [(i, "line", 4) for i in range(8)]}}
 
 
@@ -974,7 +1002,7 @@ def main(opts) -> int:
             herrs.append(f"hot profile of group {gi}: {r['harness_error'][:500]}")
         else:
             hot_info[gi] = r
-    sjobs = sweep_jobs(root, groups, rc, tier["sweeps"], hot_info, tier["hot_cap"])
+    sjobs = sweep_jobs(root, groups, rc, tier["sweeps"], hot_info, tier["hot_cap"], tier.get("hot3_cap", 400))
     jobs = sjobs + [{"root": root, "idx": i} for i in range(runs)]
     results, truncated = core.pool_map(job, jobs, wall_cap=wall)
     herrs += [f"run {jobs[i].get('idx')}: {r['harness_error'][:600]}" for i, r in sorted(results.items())
